@@ -225,7 +225,7 @@ def Val.denote (k : Scal R) (n : Nat) : Val R → Mat R
 
 /-- `PauliTerm.__eq__(PauliTerm)` -/
 def eqTerm (close : R → R → Bool) (t u : Term R) : Bool :=
-  close t.coeff u.coeff && (close t.coeff 0 || opsEq t.ops u.ops)
+  close t.coeff u.coeff && ((close t.coeff 0 && close u.coeff 0) || opsEq t.ops u.ops)
 
 section eq
 variable {K : Type} [DecidableEq K]
